@@ -3,6 +3,6 @@
 ID=$1; R=${2:-2}
 for k in 1 2; do
   /verif/bin/confirm_seed.sh $ID $k $R | tail -2
-  N=$((k+2)); [ "$R" = "3" ] && N=$((k+4))
+  N=$((k+2)); [ "$R" = "3" ] && N=$((k+4)); [ "$R" = "4" ] && N=$((k+6))
   [ -d /verif/seeded/$ID-m$N ] && /verif/bin/run_seed.sh $ID-m$N
 done
